@@ -28,3 +28,10 @@ Theorem C06_departed_is_stale_forever : forall caps ops1 o ops2 h v,
   stale (run (fst (step (run (init_net caps) ops1) o)) ops2) h.
 Proof. exact departed_stale_forever. Qed.
 Print Assumptions C06_departed_is_stale_forever.
+
+(* whole histories: any sequence of operations each going through a stale handle (for a two-qubit gate: either operand)
+   leaves the complete network state unchanged and every one of them is answered Ignored *)
+Theorem C06_stale_history_inert : forall ops s,
+  Forall (through_stale s) ops -> run s ops = s /\ run_outs s ops = map (fun _ => Ignored) ops.
+Proof. exact stale_history_inert. Qed.
+Print Assumptions C06_stale_history_inert.
